@@ -390,7 +390,7 @@ def gen_api(ctx):
         ctx.count(key=case, nontrivial=len(cls) > 1, classes=cls + (["via-binarize"] if case["binarize"] else []))
         if "consecutive-GAPs" in cls or ("unary-root" in cls and case["system"] == "gap"):
             ctx.sample({"system": case["system"], "tree": M.strip_ids(model), "actions": actions}, cap=2)
-    ctx.hyp(api_case(9 if quick else 14), body, max_examples=1500 if quick else 8000)
+    ctx.hyp(api_case(11 if quick else 14), body, max_examples=1500 if quick else 8000)
 
 
 @st.composite
